@@ -39,7 +39,8 @@ def extra_spellings(rng, thorough):
         rows.append({"kind": "hex", "cs": list(f"{n:X}"), "e": 0})
         rows.append({"kind": "oct", "cs": list(f"{n:o}"), "e": 0})
         rows.append({"kind": "bin", "cs": list(f"{n:b}"), "e": 0})
-    for m, e in [("1", 18), ("1", 19), ("9", 18), ("10", 18), ("92", 17), ("93", 17), ("95", 17), ("9999", 15), ("922337203685477580", 1),
+    for m, e in [("100000000000000000000000", -20), ("123456789012345678901234", -10), ("9223372036854775807000", -3), ("9223372036854775808000", -3), ("1" + "0" * 40, -40),
+                 ("1" + "0" * 40, -22), ("5" + "0" * 30, -30), ("12345678901234567890", -1), ("12345678901234567890", -2), ("1", 18), ("1", 19), ("9", 18), ("10", 18), ("92", 17), ("93", 17), ("95", 17), ("9999", 15), ("922337203685477580", 1),
                  ("922337203685477581", 1), ("9223372036854775807", 0), ("9223372036854775808", 0), ("12345678901234567", 1),
                  ("9007199254740993", 0), ("1", 400), ("0", 400), ("100", -2), ("15", -1), ("1", -3), ("123456789", 10), ("1_0", 2)]:
         rows.append({"kind": "exp", "cs": list(m), "e": e})
@@ -52,12 +53,19 @@ def extra_spellings(rng, thorough):
             if len(cs) > 2:
                 cs.insert(rng.randint(1, len(cs) - 1), "_")
         rows.append({"kind": k, "cs": cs, "e": rng.randint(-3, 22) if k == "exp" else 0})
+    for _ in range(1500 if thorough else 300):      # long mantissas with exponents that bring them back into range
+        n = rng.randint(15, 30)
+        cs = [rng.choice("123456789")] + [rng.choice("0123456789") for _ in range(n - 1)]
+        rows.append({"kind": "exp", "cs": cs, "e": -rng.randint(max(0, n - 20), n + 2)})
     return rows
 
 
 def float_spellings(rng, thorough):
     lits = ["0.1", "0.5", "0.0", "1.0", "0.30000000000000004", "9007199254740993.0", "123456789012345678.0", "1.7976931348623157e308",
-            "2.2250738585072014e-308", "1.0e-3", "1_234.567", "0.1e1", "5.0e-1", "1.5e300", "4.35", "2.675", "1.005", "0.000001", ".5", "3.14159"]
+            "2.2250738585072014e-308", "1.0e-3", "1_234.567", "0.1e1", "5.0e-1", "1.5e300", "4.35", "2.675", "1.005", "0.000001", ".5", "3.14159",
+            # around the largest double: representable, rounding to it, and beyond it (must be rejected), plain and with exponent
+            "1.7976931348623158e308", "1.79769313486231580793e308", "1.797693134862315808e308", "1.8e308", "1.0e309", "0.1e310", "17976931348623157" + "0" * 292 + ".0",
+            "17976931348623159" + "0" * 292 + ".0", "1" + "0" * 308 + ".0", "1" + "0" * 309 + ".0", "1" + "0" * 400 + ".5", "9" * 320 + ".9", "2.0e1024"]
     for _ in range(6000 if thorough else 1500):
         ip = "".join(rng.choice("0123456789") for _ in range(rng.randint(0, 4)))
         if len(ip) > 2 and rng.random() < 0.2:
@@ -115,6 +123,7 @@ def run():
                 reqs.append({"id": f"{i}", "src": PREFIX[k] + text + (f"e{c['e']}" if k == "exp" else "")})
             elif k == "str":
                 reqs.append({"id": f"{i}", "src": '"' + text + '"'})
+                reqs.append({"id": f"{i}x", "src": '["' + text + '", "zz"]'})         # the same literal followed by another one on the line
             elif k == "raw":
                 reqs.append({"id": f"{i}", "src": "`" + text + "`"})
             elif k == "name":
@@ -165,6 +174,18 @@ def run():
                         ck.reject(f"C17:{k}:wrong-chars:{'+'.join(sorted(set(p for p in c['cs'] if p.startswith(chr(92)))))}",
                                   f"{src} gives {end}, its spelling denotes code points {c['cp']}",
                                   {"src": src, "observed": end, "expected_codepoints": c["cp"], "variant": label})
+                    elif k == "str":
+                        end2, got2 = out[f"{i}x"]["end"], None
+                        if end2.startswith('val:["'):
+                            try:
+                                v2 = ast.literal_eval(end2[4:])
+                                got2 = [ord(ch) for ch in v2[0]] if len(v2) == 2 and v2[1] == "zz" else None
+                            except Exception:
+                                got2 = None
+                        if got2 != c["cp"]:
+                            ck.reject(f"C17:str:in-context:{'+'.join(sorted(set(p for p in c['cs'] if p.startswith(chr(92)))))}",
+                                      f"[{src}, \"zz\"] gives {end2}: the literal followed by another literal on the same line is no longer the string it denotes alone ({c['cp']})",
+                                      {"src": f'[{src}, "zz"]', "observed": end2, "expected_codepoints": c["cp"], "variant": label})
                 elif oc == "reject":
                     nontrivial.add(src)
                     if end.startswith("val:"):
@@ -194,7 +215,9 @@ def run():
         m = re.fullmatch(r"([0-9_]*)\.([0-9_]+)(?:[eE](-?[0-9]+))?", s)
         ip, fp, ex = m.group(1), m.group(2), int(m.group(3) or 0)
         k, fm, fe = "other", 0, 0
-        if re.fullmatch(r"val:-?\d+\.\d+", end):
+        if not end.startswith("val:"):
+            k = "rejected"
+        if re.fullmatch(r"val:-?\d+\.\d+(e[+-]?\d+)?", end):
             x = float(end[4:])
             k = "float"
             if x != 0:
